@@ -1025,6 +1025,9 @@ func (e *Engine) dirInfo() Value {
 func osStat(e *Engine, fr *frame, _ token.Pos, a []Value) Value {
 	e.note("model:directory-listing")
 	if p, ok := a[0].(string); ok {
+		for len(p) > 1 && strings.HasSuffix(p, "/") {
+			p = strings.TrimSuffix(p, "/")
+		}
 		if _, isDir := e.dirs[p]; isDir {
 			return Tuple{e.dirInfo(), Iface{}}
 		}
@@ -1056,6 +1059,9 @@ func osOpen(e *Engine, fr *frame, _ token.Pos, a []Value) Value {
 	p, ok := a[0].(string)
 	if !ok {
 		panic(unsupported("os.Open of a symbolic path"))
+	}
+	for len(p) > 1 && strings.HasSuffix(p, "/") {
+		p = strings.TrimSuffix(p, "/")
 	}
 	if _, isDir := e.dirs[p]; !isDir {
 		return Tuple{(*Value)(nil), e.notExistErr()}
